@@ -145,7 +145,8 @@ fn main() {
                         let _ = writeln!(out, "VIOLATION run={r} rule={} : {}", v.rule, v.detail);
                         let _ = writeln!(out, "  scenario: {}", o.desc);
                         let o2 = run::execute(prop, tier, Choices::replay(o.choices.iter().map(|c| c.1).collect(), None), true);
-                        for l in o2.trace.as_ref().unwrap().iter().rev().take(60).collect::<Vec<_>>().into_iter().rev() {
+                        let keep = if args.iter().any(|a| a == "--full") { usize::MAX } else { 60 };
+                        for l in o2.trace.as_ref().unwrap().iter().rev().take(keep).collect::<Vec<_>>().into_iter().rev() {
                             let _ = writeln!(out, "    {l}");
                         }
                         let _ = writeln!(out, "  replayed rule: {:?}", o2.violation.as_ref().map(|v| &v.rule));
